@@ -38,6 +38,22 @@ state is per *result* position):
   of distinct names and the number of compiled columns (the failure records that relation as `diag`).
   Stub description for these: the rendered name (ResultColumn.keyname) of compiled columns, the bare column names for what
   a fragment / undeclared column yields.
+
+Histories over the compiled cache (shapes perm:<kind>) - the contract above quantifies over every execution, whatever the
+state of the compiled cache; the second execution of the shapes above reuses the shared Column objects at the SAME positions
+(or brand-new objects).  Here a history is a sequence of executions of one statement template over the same k (2..3)
+interchangeable objects, step t putting object pi_t(r) into slot r; the objects are
+  * alias / subquery / cte: anonymous s.alias() / select(s).subquery() / select(s).cte() of a 3-row table s; slot r is
+    pinned to row r (WHERE slot_r.id = <id of row r>), the select list is an ordered selection of (slot, column) pairs;
+  * anon_label: (s.c.x + <1000 * (j+1)>).label(None); the select list is an ordered selection of slots.
+  Anonymous names are assigned by order of appearance and bound values are extracted, so all steps of a history have the
+  same SQL text and cache key: every step after the first is served by the Compiled and the CursorResultMetaData of step 1
+  (measured per step: context.cache_hit) through _adapt_to_context, with the invoked statement's column objects at other
+  result positions than in the compiled statement.  Ghost state and clauses are unchanged: position i of step t carries the
+  object the statement *of step t* selects there, and v_i is what the database produced (row of the slot / x + the bound
+  value of the label in that slot); only keys occurring in the statement of step t are looked up.  Each history starts on a
+  cold cache (Engine.clear_compiled_cache()); the first permutation is the identity (objects are fresh per history).
+  Stub driver: step 1 compiles, later steps build the CursorResult with CACHE_HIT and the permuted invoked statement.
 """
 import itertools
 import json
@@ -283,9 +299,11 @@ def lookup(row, key):
         return ["exc", type(e).__name__, str(e)[:80]]
 
 
-def check_row(row, keys, keyobjs, vals, stub, explicit_labels, desc_base):
-    """evaluate the contract on one row -> list of failure descriptions"""
+def check_row(row, keys, keyobjs, vals, stub, explicit_labels, desc_base, keynames=None):
+    """evaluate the contract on one row -> list of failure descriptions.  keynames: id(key object) -> stable name for the
+    failure record (anonymous aliases / labels carry their id() in str())"""
     fails = []
+    _str = (lambda k: keynames.get(id(k), str(k))) if keynames else str
     n = len(vals)
     # stub rows are coded by expression: position of the first occurrence of the same expression (a database returns equal
     # values for the same expression selected twice)
@@ -324,7 +342,7 @@ def check_row(row, keys, keyobjs, vals, stub, explicit_labels, desc_base):
                 lpos = sorted({j for i in lpos for j in range(n) if keys[j] == keys[i]})
             lp = [expect[i] for i in lpos]
             if got[0] == "value" and got[1] not in lp:
-                fails.append(dict(desc_base, clause="lookup", key_kind=kind, key=str(key), positions=pos, expected=["no-such-column-or-value-of", lp], got=got, wrong_value=True))
+                fails.append(dict(desc_base, clause="lookup", key_kind=kind, key=_str(key), positions=pos, expected=["no-such-column-or-value-of", lp], got=got, wrong_value=True))
             continue
         if len(pos) == 1:
             ok = got == ["value", pv[0]]
@@ -349,7 +367,7 @@ def check_row(row, keys, keyobjs, vals, stub, explicit_labels, desc_base):
                     if j not in pos and vn in VALUES and vn.replace(".", "_") == key:
                         diag.append("key-equals-table-qualified-label-of-another-position")
                         break
-            fails.append(dict(desc_base, clause="lookup", key_kind=kind, key=str(key), positions=pos, expected=want, got=got, diag=diag,
+            fails.append(dict(desc_base, clause="lookup", key_kind=kind, key=_str(key), positions=pos, expected=want, got=got, diag=diag,
                               wrong_value=bool(got[0] == "value" and got[1] not in pv)))
     return fails, evals, nontrivial
 
@@ -465,10 +483,183 @@ def run_case_stub(shape, names, style, label_length, dialect_name):
     return out, evals, nontriv
 
 
+CASE_KEYS = ("driver", "shape", "select_list", "label_style", "label_length", "k", "history")
+
+
 def run_case(case):
+    if case["shape"].startswith("perm:"):
+        r = run_case_perm(case)
+        return r[0], r[1], r[2]
     if case["driver"] == "sqlite":
         return run_case_sqlite(case["shape"], case["select_list"], case["label_style"], case["label_length"])
     return run_case_stub(case["shape"], case["select_list"], case["label_style"], case["label_length"], case["driver"].split(":")[1])
+
+
+# ------------------------------------------------------------------------------------------------ histories over the compiled cache
+# A *history* is a sequence of executions of statements built from ONE template over the same k interchangeable objects
+# (anonymous aliases / subqueries / CTEs of table s, or anonymous labels over expressions that differ only in a bound value);
+# step t assigns the objects to the template's slots by a permutation pi_t.  All steps render the same SQL and have the same
+# cache key, so every step after the first is served by the Compiled and the result meta data of step 1 and goes through
+# CursorResultMetaData._adapt_to_context with an invoked statement whose column objects sit at other positions than in the
+# statement that was compiled.  The contract is the one of check_row, evaluated on every step with the key objects of the
+# statement *of that step*.
+PERM_KINDS = ["alias", "subquery", "cte", "anon_label"]
+PERM_COLS = ["id", "x", "a_very_long_column_name_one"]
+PERM_ROWS = 3
+PERM_STUBS_QUICK = ["oracle", "postgresql"]
+for _r in range(PERM_ROWS):
+    for _j, _c in enumerate(PERM_COLS):
+        POOL_VALUES["s%d.%s" % (_r, _c)] = 10 * (_r + 1) + _j * 100       # slot r is pinned to row r of s; every cell distinct
+    POOL_VALUES["s0.x+%d" % (1000 * (_r + 1))] = POOL_VALUES["s0.x"] + 1000 * (_r + 1)
+
+
+def perm_table():
+    if "s" not in _ENV:
+        from sqlalchemy import MetaData, Table, Column, Integer
+        m = MetaData()
+        _ENV["s"] = Table("s", m, Column("id", Integer, primary_key=True), Column("x", Integer), Column("a_very_long_column_name_one", Integer))
+        _ENV["smd"] = m
+    return _ENV["s"]
+
+
+def perm_engine(label_length):
+    key = ("perm-engine", label_length)
+    if key not in _ENV:
+        from sqlalchemy import create_engine, insert
+        s = perm_table()
+        e = create_engine("sqlite://", label_length=label_length)
+        _ENV["smd"].create_all(e)
+        with e.begin() as c:
+            c.execute(insert(s), [dict(zip(PERM_COLS, [POOL_VALUES["s%d.%s" % (r, col)] for col in PERM_COLS])) for r in range(PERM_ROWS)])
+        _ENV[key] = (e, e.connect())
+    return _ENV[key]
+
+
+def perm_objects(kind, k):
+    """k fresh interchangeable objects and their stable names"""
+    from sqlalchemy import select
+    s = perm_table()
+    names = {}
+    if kind == "anon_label":
+        objs = [(s.c.x + 1000 * (j + 1)).label(None) for j in range(k)]
+        for j, o in enumerate(objs):
+            names[id(o)] = "L%d" % j
+            names[id(o.element)] = "L%d.element" % j
+        return objs, names
+    objs = [s.alias() if kind == "alias" else select(s).subquery() if kind == "subquery" else select(s).cte() for _ in range(k)]
+    for j, o in enumerate(objs):
+        for c in PERM_COLS:
+            names[id(o.c[c])] = "F%d.%s" % (j, c)
+    return objs, names
+
+
+def build_perm(kind, k, sel, perm, style, objs):
+    """the template statement with object objs[perm[r]] in slot r -> (statement, key object per position, value name per position)"""
+    from sqlalchemy import select
+    s = perm_table()
+    st = style_of(style)
+    if kind == "anon_label":
+        cols = [objs[perm[r]] for r in sel]
+        vals = ["s0.x+%d" % (1000 * (perm[r] + 1)) for r in sel]
+        return select(*cols).where(s.c.id == POOL_VALUES["s0.id"]).set_label_style(st), cols, vals
+    cols = [objs[perm[r]].c[c] for r, c in sel]
+    vals = ["s%d.%s" % (r, c) for r, c in sel]
+    crit = [objs[perm[r]].c.id == POOL_VALUES["s%d.id" % r] for r in range(k)]
+    crit += [objs[perm[r]].c.id < objs[perm[r + 1]].c.id for r in range(k - 1)]      # joins the slots (true by the pinning; no cartesian-product warning)
+    return select(*cols).where(*crit).set_label_style(st), cols, vals
+
+
+def run_case_perm(case):
+    """-> (failures, evaluations, non-trivial?, steps served from the cache with permuted objects)"""
+    from sqlalchemy.engine.interfaces import CacheStats
+    kind = case["shape"].split(":")[1]
+    k, sel, history, style, ll = case["k"], [tuple(x) if isinstance(x, list) else x for x in case["select_list"]], case["history"], case["label_style"], case["label_length"]
+    stub = case["driver"].startswith("stub:")
+    objs, names = perm_objects(kind, k)
+    out = []
+    evals = permuted_hits = 0
+    compiled = None
+    if stub:
+        d = stub_dialect(case["driver"].split(":")[1], ll)
+    else:
+        e, conn = perm_engine(ll)
+        e.clear_compiled_cache()            # every history starts cold: step 1 compiles
+    for step, perm in enumerate(history, 1):
+        stmt, keyobjs, vals = build_perm(kind, k, sel, perm, style, objs)
+        base = dict(driver=case["driver"], shape=case["shape"], k=k, select_list=[list(x) if isinstance(x, tuple) else x for x in sel], history=[list(p) for p in history],
+                    label_style=style, label_length=ll, execution=step, slots=list(perm))
+        try:
+            if stub:
+                if compiled is None:
+                    compiled = stmt.compile(dialect=d)
+                    compiled._cached_metadata = None
+                res, _ = stub_result(d, compiled, stmt, step > 1, [tuple(100 + i for i in range(len(vals)))])
+                hit = step > 1
+            else:
+                res = conn.execute(stmt)
+                hit = res.context.cache_hit is CacheStats.CACHE_HIT
+            keys = list(res.keys())
+            row = res.first()
+        except Exception as ex:  # noqa: BLE001
+            out.append(dict(base, clause="execute", key="", expected="a row", got=["exc", type(ex).__name__, str(ex)[:120]]))
+            break
+        if hit and list(perm) != list(history[0]):
+            permuted_hits += 1
+        r = check_row(row, keys, keyobjs, vals, stub, {}, base, keynames=names)
+        out += r[0]
+        evals += r[1]
+        if r[0]:
+            break           # judged at the first failing step: later steps run on a cache the failure may have left behind
+    return out, evals, permuted_hits
+
+
+def perm_cases(tier):
+    """all histories: k objects, every ordered selection of template columns, every sequence of permutations (first = identity:
+    the objects are fresh per history, so this loses nothing)"""
+    thorough = tier == "thorough"
+    out = []
+    for k in (2, 3):
+        perms = [list(p) for p in itertools.permutations(range(k))]
+        length = 3 if (k == 2 or thorough) else 2
+        if k == 2 and thorough:
+            length = 4
+        histories = [[perms[0]] + list(h) for h in itertools.product(perms, repeat=length - 1)]
+        entries = [(r, c) for r in range(k) for c in (PERM_COLS if k == 2 or thorough else PERM_COLS[:2])]
+        maxlen = 3 if k == 2 else 2
+        for kind in PERM_KINDS:
+            if kind == "anon_label":
+                lists = [list(p) for n in range(1, k + 1) for p in itertools.permutations(range(k), n)]
+            else:
+                lists = [list(p) for n in range(1, maxlen + 1) for p in itertools.permutations(entries, n)]
+            for sel in lists:
+                for h in histories:
+                    out.append((kind, k, sel, h))
+    return out
+
+
+def _work_perm(task):
+    _, chunk, stubs = task
+    evals = cases = nontriv = nfails = hits = 0
+    fails = {}
+    for kind, k, sel, h in chunk:
+        for driver in ["sqlite"] + ["stub:" + d for d in stubs]:
+            for ll in (None, 10):
+                for style in STYLES:
+                    case = dict(driver=driver, shape="perm:" + kind, k=k, select_list=sel, history=h, label_style=style, label_length=ll)
+                    r = run_case_perm(case)
+                    cases += 1
+                    evals += r[1]
+                    hits += r[2]
+                    if r[2]:
+                        nontriv += 1
+                    for f in r[0]:
+                        nfails += 1
+                        cls = (f["driver"], f["shape"], f["clause"], f.get("key_kind"), f["execution"], f["label_style"], json.dumps(f.get("expected"))[:14],
+                               json.dumps(f.get("got"))[:30])
+                        lst = fails.setdefault(cls, [])
+                        if len(lst) < 2:
+                            lst.append(f)
+    return dict(evals=evals, cases=cases, skipped=0, nontrivial=nontriv, fails=[f for l in fails.values() for f in l], nfails=nfails, permuted_hits=hits)
 
 
 # ------------------------------------------------------------------------------------------------ enumeration
@@ -483,6 +674,8 @@ def select_lists(tier, seed):
 
 
 def _work(task):
+    if task[0] == "perm":
+        return _work_perm(task)
     drivers, lists, wide_max = task
     wide_drivers = WIDE_DRIVERS if wide_max > 2 else WIDE_DRIVERS[:2]       # quick: SQLite + the Oracle stub (name normalisation)
     evals = cases = skipped = nontriv_cases = 0
@@ -525,8 +718,16 @@ def run(run, tier, seed, args):
     chunk = max(1, len(lists) // (nproc * 8))
     wide_max = 2 if tier != "thorough" else 3
     tasks = [(drivers, lists[i:i + chunk], wide_max) for i in range(0, len(lists), chunk)]
+    pcases = perm_cases(tier)
+    perm_stubs = STUB_DIALECTS if tier == "thorough" else PERM_STUBS_QUICK
+    pchunk = max(1, len(pcases) // (nproc * 4))
+    ptasks = [("perm", pcases[i:i + pchunk], perm_stubs) for i in range(0, len(pcases), pchunk)]
     with multiprocessing.get_context("fork").Pool(nproc) as pool:
-        results = pool.map(_work, tasks)
+        results = pool.map(_work, ptasks + tasks, 1)
+    presults = results[:len(ptasks)]
+    permuted_hits = sum(r["permuted_hits"] for r in presults)
+    if permuted_hits == 0:
+        run.crashes.append("C11: no permuted history step was served from the compiled cache (vacuity guard)")
     evals = sum(r["evals"] for r in results)
     cases = sum(r["cases"] for r in results)
     nontriv = sum(r["nontrivial"] for r in results)
@@ -556,43 +757,62 @@ def run(run, tier, seed, args):
         r = run_case(case)
         samples.append(dict(case=case, sql=str(built[0].compile(dialect=engine(case["label_length"])[0].dialect if case["driver"] == "sqlite" else stub_dialect(case["driver"].split(":")[1], case["label_length"]))).replace("\n", " "),
                             contract_failures=len(r[0]), lookups=r[1]))
+    pcase = dict(driver="sqlite", shape="perm:alias", k=2, select_list=[[0, "x"], [1, "x"]], history=[[0, 1], [1, 0], [0, 1]], label_style="DISAMBIGUATE_ONLY", label_length=None)
+    objs, _ = perm_objects("alias", 2)
+    r = run_case(pcase)
+    samples.append(dict(case=pcase, sql=[str(build_perm("alias", 2, [(0, "x"), (1, "x")], p, "DISAMBIGUATE_ONLY", objs)[0].compile(dialect=perm_engine(None)[0].dialect)).replace("\n", " ")
+                                         for p in pcase["history"][:2]],
+                        contract_failures=len(r[0]), lookups=r[1], steps_served_from_cache_with_permuted_objects=r[2]))
     if cases == 0:
         run.crashes.append("C11: no case ran (vacuity guard)")
     run.coverage.update(
         evaluations=evals, cases=cases, distinct_nontrivial=nontriv,
+        history_cases=sum(r["cases"] for r in presults), history_cases_nontrivial=sum(r["nontrivial"] for r in presults),
+        history_steps_served_from_cache_with_permuted_objects=permuted_hits,
         rule="cases = (driver, shape, select list, label style, label_length), each built and run twice; select lists are all ordered selections of "
              "1..2 of the %d pool expressions plus %s ordered triples; one evaluation = one key lookup / positional / keys() clause on a real row; a case is "
              "non-trivial when at least one of its keys denotes two or more positions (name / label / object collision); distinct by construction. "
-             "The wide shapes (cursor.description longer than the compiled column list) run for select lists of 0..%d expressions on drivers %s" % (
+             "The wide shapes (cursor.description longer than the compiled column list) run for select lists of 0..%d expressions on drivers %s. "
+             "History cases = (driver, kind, k, select list over template slots, sequence of slot permutations, label style, label_length): every step is "
+             "judged; a history case is non-trivial when at least one step was served from the compiled cache (measured: context.cache_hit) with the "
+             "objects in other slots than in the statement that was compiled; distinct by construction" % (
                  len(POOL), "all" if tier == "thorough" else "a seeded 1/9 sample of the", wide_max, WIDE_DRIVERS if wide_max > 2 else WIDE_DRIVERS[:2]),
         samples=samples, exhaustive=tier == "thorough",
         scope="SELECTs over a JOIN b (colliding column names id / x / a_very_long_column_name_one, 27-character names, labels colliding with column names and "
               "with table-qualified labels, anonymous expressions, literal_column) x shapes %s x label styles %s x label_length in {None, 10} x drivers: "
               "in-memory SQLite (every cell a distinct value; second execution through the compiled cache / _adapt_to_context) and a stub cursor replaying the "
               "compiled names for the %s dialect objects; select lists: %d; wide shapes %s: textual fragments %s placed first / last in the select "
-              "list, TextualSelect declaring a positional prefix / a by-name subset of what the SQL returns (undeclared %s)" % (
-                  SHAPES, STYLES, STUB_DIALECTS, len(lists), WIDE_SHAPES, {k: v[1] for k, v in FRAGMENTS.items()}, [v for v, _ in TEXT_EXTRAS]),
+              "list, TextualSelect declaring a positional prefix / a by-name subset of what the SQL returns (undeclared %s); "
+              "histories over the compiled cache: k in {2, 3} interchangeable objects of kind %s (anonymous alias / subquery / CTE of a 3-row table, slot r "
+              "pinned to row r; anonymous labels over x + <bound value>), select lists = ordered selections of %s template columns (slot, column), "
+              "every sequence of %s slot permutations after the identity, one cold cache per history, drivers SQLite + stub %s: %d histories" % (
+                  SHAPES, STYLES, STUB_DIALECTS, len(lists), WIDE_SHAPES, {k: v[1] for k, v in FRAGMENTS.items()}, [v for v, _ in TEXT_EXTRAS],
+                  PERM_KINDS, "1..3 (k=2) / 1..2 (k=3; 3 columns per slot)" if tier == "thorough" else "1..3 (k=2) / 1..2 (k=3; 2 columns per slot)", "3 (k=2) / 2 (k=3)" if tier == "thorough" else "2 (k=2) / 1 (k=3)",
+                  perm_stubs, len(pcases)),
         contract_failures=nfails, wall_s=round(time.time() - t0, 1))
     run.assumptions += [
         "DBAPI contract: cursor returns columns in SELECT-list order, description[i][0] is the rendered name of column i (stub: de-normalised for Oracle)",
         "SQLite's own column naming stands for 'a backend'; other backends' naming only through the stub replaying compiled names",
         "outside: ORM entity rows, RETURNING, driver_column_names option, loose_column_name_matching dialects",
+        "histories: only keys that occur in the statement of the step are looked up (a column object of an earlier step's statement that the current "
+        "statement does not select denotes no position; the property does not say what such a lookup does)",
     ]
 
 
 def replay(data):
     case = data["input"]
-    r = run_case({k: case[k] for k in ("driver", "shape", "select_list", "label_style", "label_length")})
+    r = run_case({k: case[k] for k in CASE_KEYS if k in case})
     if r is None:
         print("REPLAY: case not applicable", case)
         return 3
     fails = r[0]
     if "clause" in case:     # the recorded lookup only: the same case may also show a known finding on another key
-        fails = [f for f in fails if (f["clause"], f.get("key"), f.get("key_kind")) == (case["clause"], case.get("key"), case.get("key_kind"))]
+        fails = [f for f in fails if (f["clause"], f.get("key"), f.get("key_kind")) == (case["clause"], case.get("key"), case.get("key_kind"))
+                 and f.get("execution") == case.get("execution", f.get("execution"))]
     if fails:
         for f in fails[:5]:
-            print(f"REPLAY-FAILS {data.get('function')} case={ {k: case[k] for k in ('driver', 'shape', 'select_list', 'label_style', 'label_length')} } "
+            print(f"REPLAY-FAILS {data.get('function')} case={ {k: case[k] for k in CASE_KEYS if k in case} } "
                   f"execution={f['execution']} clause={f['clause']} key={f.get('key')} expected={f.get('expected')} got={f.get('got')}")
         return 1
-    print("REPLAY-PASSES", {k: case[k] for k in ("driver", "shape", "select_list", "label_style", "label_length")}, "lookups", r[1])
+    print("REPLAY-PASSES", {k: case[k] for k in CASE_KEYS if k in case}, "lookups", r[1])
     return 0
